@@ -302,6 +302,39 @@ def pKmz0 : P String := do
   pure (okLine #[kmZ0 FloatFns zm ws us L, kmPhiM FloatFns zm L, kmPhiC FloatFns zm L, kmPsiM FloatFns zm L,
     kmM FloatFns zm ws us L, kmN zm L])
 
+def showOptNat : Option Nat → String
+  | some v => toString v
+  | none => "N"
+
+/-- `rt <nops> ops…`: `T n` set threads, `S req fp an` solve, `F` module-level fft2, `Z` reset FFT manager,
+`W` worker reset.  Answers `| threads mgr pyfftw serial parallel [out]` after every op. -/
+def pRt : P String := do
+  let n ← pNat
+  let mut ops : List RtOp := []
+  for _ in [0:n] do
+    let t ← tok
+    if t == "T" then ops := ops ++ [RtOp.setThreads (← pNat)]
+    else if t == "S" then
+      let r ← pNat
+      let fp ← pBool
+      let an ← pBool
+      ops := ops ++ [RtOp.solve { req := r, footprint := fp, analytic := an }]
+    else if t == "F" then ops := ops ++ [RtOp.fft2]
+    else if t == "Z" then ops := ops ++ [RtOp.resetFft]
+    else if t == "W" then ops := ops ++ [RtOp.workerReset]
+    else failure
+  pEnd
+  let mut s := RtState.init
+  let mut out := "ok"
+  for op in ops do
+    let (s', o) := rtStep s op
+    s := s'
+    out := out ++ s!" | {s.numThreads} {showOptNat s.fftMgr} {showOptNat s.pyfftwThreads} {s.compiledSerial} {s.compiledParallel}"
+    match o with
+    | some r => out := out ++ s!" out:{r.req}:{r.parallelKernel}"
+    | none => pure ()
+  pure out
+
 def pInt : P Int := do
   let t ← tok
   match t.toInt? with
@@ -461,6 +494,7 @@ def dispatch : P String := do
   else if op == "kmz0" then pKmz0
   else if op == "cachehist" then pCacheHist
   else if op == "single" then pSingle
+  else if op == "rt" then pRt
   else failure
 
 def handle (line : String) : String :=
